@@ -187,13 +187,16 @@ pub fn run_threads(progs: Vec<Box<dyn FnOnce() + Send + 'static>>) -> Vec<Thread
     let n = progs.len();
     trace::add(C::threads_spawned, n as u64);
     if !baton() {
-        // free-running (Miri decides the interleaving)
+        // free-running (Miri decides the interleaving); every thread gets its own draw stream
+        let seeds: Vec<u64> = (0..n).map(|_| ((choice::draw(u32::MAX) as u64) << 32) | choice::draw(u32::MAX) as u64).collect();
         let hs: Vec<_> = progs
             .into_iter()
             .enumerate()
             .map(|(i, p)| {
+                let seed = seeds[i];
                 std::thread::spawn(move || {
                     ME.with(|m| m.set(Some(i)));
+                    choice::set_thread_rng(seed);
                     p()
                 })
             })
